@@ -135,7 +135,7 @@ func zero(t types.Type) Value {
 	case *types.Signature:
 		return nil
 	case *types.Chan:
-		return nil
+		return (*ChanV)(nil)
 	case *types.Tuple:
 		tu := make(Tuple, u.Len())
 		for i := range tu {
